@@ -21,7 +21,7 @@ META = {
             "the specification (fresh distinct identifiers, lookups, slot contents, growth). Concurrent histories of the "
             "same functions (all interleavings of small scenarios under the cooperative scheduler, random schedules, "
             "free-running threads) are checked for linearizability by TLC.",
-    "note": "Exhaustive for sequences of <= 5 (quick) / 6 (thorough) operations over 2-4 names, 1-2 objects, 1-2 values; "
+    "note": "Exhaustive for sequences of <= 5 (quick) / 5-6 (thorough) operations over 2-4 names, 1-2 objects, 1-2 values; "
             "random walks of 30-60 operations over 5-6 names and 3 objects beyond that. Concurrent: 2-3 threads x <= 3 "
             "operations exhaustively up to a limit, random schedules and free-running 4-thread stress beyond. A slot keeps "
             "its value across unregister when the info has no destructor (modelled as the code does). The value returned "
@@ -69,8 +69,8 @@ def sequential(ctx, d, exe):
                ("obj2", consts(2, 2, [1], [(0, 1)], 5))]            # two object arrays, destructor on unregister
     else:
         bfs = [("reg4", consts(4, 1, [1], [(0, 0)], 6)),
-               ("slot2", consts(2, 1, [1, 2], [(0, 0), (1, 1)], 6)),
-               ("obj2", consts(3, 2, [1], [(0, 1), (1, 0)], 6))]
+               ("slot2", consts(2, 1, [1, 2], [(0, 0), (1, 1)], 5)),
+               ("obj2", consts(3, 2, [1], [(0, 1), (1, 0)], 5))]
     for name, c in bfs:
         mod, cfg = mcgen.write_mc(d, name, "Registry", c, invariants=("TypeOK", "DistinctIds", "DenseIds", "Emit"))
         r = ctx.tlc_check(d, mod, cfg, workers=4, timeout=1500,
@@ -81,8 +81,8 @@ def sequential(ctx, d, exe):
                 hs.append(h)
     n_bfs = len(hs)
     for (name, c, depth, num) in ([("sim5", consts(5, 3, [0, 1, 2], ALLF, 30), 30, 300)] if ctx.quick else
-                                  [("sim5", consts(5, 3, [0, 1, 2], ALLF, 40), 40, 3000),
-                                   ("sim6", consts(6, 3, [0, 1, 2, 3], ALLF, 60), 60, 2000)]):
+                                  [("sim5", consts(5, 3, [0, 1, 2], ALLF, 40), 40, 2000),
+                                   ("sim6", consts(6, 3, [0, 1, 2, 3], ALLF, 60), 60, 1000)]):
         mod, cfg = mcgen.write_mc(d, name, "Registry", c, invariants=("TypeOK", "DistinctIds", "Emit"))
         hs.extend(ctx.tlc_histories(d, mod, cfg, num, depth + 1, workers=4))
     ctx.extra["behaviours_bfs"] = n_bfs
